@@ -40,5 +40,12 @@ func (m Meter) validate() error {
 	if m.Num < 1 {
 		return errorx.Invalid("Meter should be positive")
 	}
+	// a MIDI file states the numerator in one byte and the denominator as a power of two
+	if m.Num > 255 {
+		return errorx.Invalid("Meter numerator %d cannot be written to a MIDI file", m.Num)
+	}
+	if m.Denom > 128 || m.Denom&(m.Denom-1) != 0 {
+		return errorx.Invalid("Meter denominator %d cannot be written to a MIDI file", m.Denom)
+	}
 	return nil
 }
